@@ -319,6 +319,11 @@ func (b *builder) stmt(s ast.Stmt, st *state) []*state {
 		if fs, ok := s.(*ast.ForStmt); ok && b.summation(fs, st) {
 			return []*state{st}
 		}
+		if fs, ok := s.(*ast.ForStmt); ok {
+			if out, ok := b.search(fs, st); ok {
+				return out
+			}
+		}
 		b.unsupported(s.Pos(), "loop")
 		// the loop's effects are unknown: variables assigned inside become opaque
 		ast.Inspect(s, func(n ast.Node) bool {
@@ -449,6 +454,76 @@ func (b *builder) summation(fs *ast.ForStmt, st *state) bool {
 	cur := b.lookup(accObj, acc.Name, st)
 	st.env[accObj] = sym.Add(cur, sym.F("sum", lo, hi, body))
 	return true
+}
+
+// search reads `for i := lo; i < hi; i++ { if P(i) { return X } }` (X independent of i, P free of
+// effects and of assignments) as a bounded existential: one path on which exists(lo, hi, P($k))
+// holds and X is returned, and one on which it does not and execution goes on after the loop.
+func (b *builder) search(fs *ast.ForStmt, st *state) ([]*state, bool) {
+	init, ok := fs.Init.(*ast.AssignStmt)
+	if !ok || init.Tok != token.DEFINE || len(init.Lhs) != 1 || len(init.Rhs) != 1 {
+		return nil, false
+	}
+	iv, ok := init.Lhs[0].(*ast.Ident)
+	if !ok {
+		return nil, false
+	}
+	iobj := b.info.Defs[iv]
+	cond, ok := fs.Cond.(*ast.BinaryExpr)
+	if !ok || cond.Op != token.LSS {
+		return nil, false
+	}
+	if ci, ok := cond.X.(*ast.Ident); !ok || b.info.Uses[ci] != iobj {
+		return nil, false
+	}
+	post, ok := fs.Post.(*ast.IncDecStmt)
+	if !ok || post.Tok != token.INC {
+		return nil, false
+	}
+	if pi, ok := post.X.(*ast.Ident); !ok || b.info.Uses[pi] != iobj {
+		return nil, false
+	}
+	if len(fs.Body.List) != 1 {
+		return nil, false
+	}
+	is, ok := fs.Body.List[0].(*ast.IfStmt)
+	if !ok || is.Init != nil || is.Else != nil || len(is.Body.List) != 1 {
+		return nil, false
+	}
+	ret, ok := is.Body.List[0].(*ast.ReturnStmt)
+	if !ok {
+		return nil, false
+	}
+	usesI := false
+	ast.Inspect(ret, func(n ast.Node) bool {
+		if id, ok := n.(*ast.Ident); ok && b.info.Uses[id] == iobj {
+			usesI = true
+		}
+		return true
+	})
+	if usesI {
+		return nil, false
+	}
+	b.sumDepth++
+	bound := sym.V(fmt.Sprintf("$k%d", b.sumDepth))
+	lo := b.expr(init.Rhs[0], st)
+	hi := b.expr(cond.Y, st)
+	inner := st.clone()
+	inner.env[iobj] = bound
+	nEff := len(inner.effects)
+	p := b.expr(is.Cond, inner)
+	_ = nEff
+	b.sumDepth--
+	atom := sym.F("exists", lo, hi, p)
+	found := st.clone()
+	found.conds = append(found.conds, atom)
+	var rs []sym.Expr
+	for _, r := range ret.Results {
+		rs = append(rs, b.expr(r, found))
+	}
+	b.end(found, "return", rs)
+	st.conds = append(st.conds, sym.Logic{Op: "!", Args: []sym.Expr{atom}})
+	return []*state{st}, true
 }
 
 // ConstTable returns the initialiser of a package-level variable that is only ever read (a lookup
